@@ -50,6 +50,9 @@ func (e event) String() string {
 	if e.Kind == "drain" {
 		return "drain-token-budgets"
 	}
+	if e.Kind == "lookup" {
+		return "key-lookup-through-the-handler"
+	}
 	if e.Kind == "hang" {
 		return "check-begins-and-the-first-ping-does-not-return(" + strings.Join(e.V, ",") + ")"
 	}
@@ -70,8 +73,27 @@ type cfgT struct {
 	// the real handler, which uses up the budget. Health checking is not a
 	// signing operation: what it reports must not depend on the budget.
 	RateLimited bool
+	// Lookups: the history alphabet gains "lookup": a key lookup through the real handler (the first
+	// fills the server's key cache, later ones are answered from it). Signing traffic is not a token
+	// check: what health reports must not depend on it.
+	Lookups bool
 
 	extraDeltas bool
+}
+
+// Interval / Timeout 0 = the configuration does not set them (the documented defaults, 60 s, apply)
+func (c cfgT) effInterval() int {
+	if c.Interval == 0 {
+		return 60
+	}
+	return c.Interval
+}
+
+func (c cfgT) effTimeout() int {
+	if c.Timeout == 0 {
+		return 60
+	}
+	return c.Timeout
 }
 
 func (c cfgT) effN() int {
@@ -104,7 +126,7 @@ func mkConfig(c cfgT) *config.Config {
 		}
 		cfg.Keys[fmt.Sprintf("k%d", i)] = &config.KeyConfig{Token: tn, Roles: []string{"r"}}
 	}
-	if c.RateLimited {
+	if c.RateLimited || c.Lookups {
 		d := sha256.Sum256(relicx.ClientCert().RawSubjectPublicKeyInfo)
 		cfg.Clients[hex.EncodeToString(d[:])] = &config.ClientConfig{Nickname: "c20-client", Roles: []string{"r"}}
 	}
@@ -121,20 +143,22 @@ func mkConfig(c cfgT) *config.Config {
 // "deliver the wake-up the loop is waiting for and let it run until it waits
 // for the next one", however many rounds of pings it performs in between.
 type instance struct {
-	c       cfgT
-	srv     *server.Server
-	h       http.Handler
-	results []bool    // per completed round of pings: all tokens ok
-	lastEnd time.Time // virtual time the last round completed (or start)
-	state   []string  // what each token answers now (dealt in ping order inside a round)
-	round   []string  // answers given in the round in progress
-	rounds  int
-	pingCh  chan pingReq
-	done    chan struct{}
-	started bool     // the loop has been woken at least once (a round of a server without tokens has no ping to mark it)
-	hung    *pingReq // a ping that has not returned yet although time goes on (event "hang"); answered by "resume"
-	held    *pingReq // first ping of a round, not answered yet: the loop is not waiting on a timer
-	drained bool     // rate-limited configuration: the tokens' budgets have been used up
+	c            cfgT
+	srv          *server.Server
+	h            http.Handler
+	results      []bool    // per completed round of pings: all tokens ok
+	lastEnd      time.Time // virtual time the last round completed (or start)
+	state        []string  // what each token answers now (dealt in ping order inside a round)
+	round        []string  // answers given in the round in progress
+	rounds       int
+	pingCh       chan pingReq
+	done         chan struct{}
+	started      bool     // the loop has been woken at least once (a round of a server without tokens has no ping to mark it)
+	hung         *pingReq // a ping that has not returned yet although time goes on (event "hang"); answered by "resume"
+	held         *pingReq // first ping of a round, not answered yet: the loop is not waiting on a timer
+	roundsAtWake int      // rounds completed when the loop was last woken
+	looked       bool     // a key lookup has gone through the handler (the key is in the server's cache)
+	drained      bool     // rate-limited configuration: the tokens' budgets have been used up
 }
 
 type pingReq struct {
@@ -164,7 +188,7 @@ func (in *instance) answer(r pingReq) {
 			vtime.Advance(1)
 			time.Sleep(2 * time.Millisecond)
 		} else {
-			vtime.Advance(time.Duration(in.c.Timeout)*time.Second + 1)
+			vtime.Advance(time.Duration(in.c.effTimeout())*time.Second + 1)
 		}
 		err = context.DeadlineExceeded
 	}
@@ -210,6 +234,16 @@ func (in *instance) settle(hist []event) bool {
 			}
 		case e := <-vtime.Events:
 			if e.Kind == "new" || e.Kind == "reset" {
+				// the loop waits for its timer again: the round it was woken for must have asked every
+				// served token (a "check" that asks nobody, or not everybody, has checked nothing)
+				if in.started && in.c.Tokens > 0 && hist != nil && (in.rounds == in.roundsAtWake || len(in.round) != 0) {
+					asked := len(in.round)
+					key := "check-round-asked-no-token"
+					if asked != 0 {
+						key = "check-round-asked-fewer-tokens-than-served"
+					}
+					run.Violation(key, fmt.Sprintf("the loop was woken and went back to waiting after asking %d of %d served tokens; config %+v history %v", asked, in.c.Tokens, in.c, hist), map[string]any{"config": in.c, "history": hist})
+				}
 				in.endRound() // a round that asked fewer tokens than are configured
 				return true
 			}
@@ -238,6 +272,13 @@ func newInstance(c cfgT) *instance {
 	faketoken.S.Ping = func(ctx context.Context, name string) error {
 		// tokens are pinged in map order; the reference treats the vector as a
 		// multiset, so outcomes are dealt in call order.
+		// every token check runs under the configured deadline (server.tokenchecktimeout; 60 s when the
+		// configuration does not set it)
+		if dl, ok := ctx.Deadline(); !ok {
+			run.Violation("check-without-deadline", fmt.Sprintf("a token check runs without a deadline; config %+v", in.c), map[string]any{"config": in.c})
+		} else if got, want := dl.Sub(vtime.Now()), time.Duration(in.c.effTimeout())*time.Second; got != want {
+			run.Violation("check-deadline-differs-from-the-configured-timeout", fmt.Sprintf("a token check runs under a deadline of %s, the configuration says %s (tokenchecktimeout=%d, tokencheckinterval=%d; 0 = not set, default 60 s); config %+v", got, want, in.c.Timeout, in.c.Interval, in.c), map[string]any{"config": in.c})
+		}
 		r := pingReq{ctx, make(chan error, 1)}
 		select {
 		case in.pingCh <- r:
@@ -292,6 +333,17 @@ func (in *instance) apply(e event, hist []event) {
 			cancel()
 		}
 		in.drained = true
+	case "lookup":
+		for i := 0; i < in.c.Tokens; i++ {
+			req := httptest.NewRequest("GET", fmt.Sprintf("/keys/k%d", i), nil)
+			req.TLS = &tls.ConnectionState{PeerCertificates: []*x509.Certificate{relicx.ClientCert()}}
+			rec := httptest.NewRecorder()
+			in.h.ServeHTTP(rec, req)
+			if rec.Code != 200 {
+				run.Outcome(fmt.Sprintf("lookup:status-%d", rec.Code))
+			}
+		}
+		in.looked = true
 	case "advance":
 		vtime.Advance(time.Duration(e.D))
 	case "hang":
@@ -301,6 +353,7 @@ func (in *instance) apply(e event, hist []event) {
 			return
 		}
 		in.state = e.V
+		in.roundsAtWake = in.rounds
 		if in.wake(hist) {
 			in.started = true
 			select {
@@ -323,6 +376,7 @@ func (in *instance) apply(e event, hist []event) {
 			return
 		}
 		in.state = e.V
+		in.roundsAtWake = in.rounds
 		if in.wake(hist) {
 			in.started = true
 			in.settle(hist)
@@ -352,7 +406,7 @@ func (in *instance) expectHealthy() bool {
 	if in.c.Disabled {
 		return false
 	}
-	interval := time.Duration(in.c.Interval) * time.Second
+	interval := time.Duration(in.c.effInterval()) * time.Second
 	if vtime.Now().Sub(in.lastEnd) > 3*interval {
 		return false
 	}
@@ -470,7 +524,7 @@ type key struct {
 
 func (in *instance) canon() string {
 	status, last := server.VerifHealthState()
-	interval := time.Duration(in.c.Interval) * time.Second
+	interval := time.Duration(in.c.effInterval()) * time.Second
 	age := vtime.Now().Sub(last)
 	// Healthy()/healthCheck() read only (healthStatus, now-healthLastPing vs 3*interval,
 	// Disabled); the age is kept exactly up to the threshold+1 and then saturates:
@@ -492,6 +546,9 @@ func (in *instance) canon() string {
 		// what the outstanding ping (and the rest of its round) will answer is part of the state
 		hung = " ping-outstanding:" + strings.Join(in.state, ",")
 	}
+	if in.looked {
+		hung += " key-cached"
+	}
 	if in.drained {
 		return fmt.Sprintf("st=%d age=%d trail=%d drained%s", status, age, trail, hung)
 	}
@@ -499,7 +556,7 @@ func (in *instance) canon() string {
 }
 
 func explore(c cfgT) {
-	interval := time.Duration(c.Interval) * time.Second
+	interval := time.Duration(c.effInterval()) * time.Second
 	outcomes := []string{"ok", "error", "timeout"}
 	var vectors [][]string
 	if c.Tokens == 0 {
@@ -601,6 +658,9 @@ func explore(c cfgT) {
 		} else if len(hangs) > 0 {
 			evs = append(append([]event{}, alphabet...), hangs...)
 		}
+		if c.Lookups && !isHung(nd.hist) {
+			evs = append(append([]event{}, evs...), event{Kind: "lookup"})
+		}
 		if c.RateLimited {
 			already := false
 			for _, e := range nd.hist {
@@ -685,6 +745,11 @@ func main() {
 	}
 	cfgs = append(cfgs, cfgT{N: 2, Tokens: 1, Interval: 60, Timeout: 60, RateLimited: true})
 	cfgs = append(cfgs, cfgT{N: 2, Tokens: 0, Interval: 60, Timeout: 60})
+	// interval and / or timeout not set in the configuration (defaults apply, each on its own), and a
+	// timeout longer than the interval
+	cfgs = append(cfgs, cfgT{N: 2, Tokens: 1, Interval: 0, Timeout: 5}, cfgT{N: 2, Tokens: 1, Interval: 30, Timeout: 0}, cfgT{N: 1, Tokens: 1, Interval: 0, Timeout: 0}, cfgT{N: 2, Tokens: 1, Interval: 10, Timeout: 45})
+	// key lookups through the handler between checks
+	cfgs = append(cfgs, cfgT{N: 2, Tokens: 1, Interval: 60, Timeout: 60, Lookups: true}, cfgT{N: 1, Tokens: 2, Interval: 60, Timeout: 60, Lookups: true})
 	for _, c := range cfgs {
 		explore(c)
 		if loopBroken {
@@ -696,7 +761,7 @@ func main() {
 	}
 	workerPhase()
 	run.Set("configurations", len(cfgs))
-	run.Rule("state = canonical (healthStatus, age of last completed check saturated just above 3 intervals, trailing failure run) reached by a history of events {check(vector over ok/error/timeout per token), advance(1 | 3 | 3+1ns intervals; thorough adds 1ns and 3 intervals-1ns in one depth-bounded configuration); one configuration with tokens.<name>.ratelimit set adds drain-token-budgets (a key lookup per token through the real handler, once per history)} replayed on a fresh real server.New; besides a check that completes, a check may begin and have its first ping NOT return (a token that ignores its context) while advance events go on, until a resume event lets it return and the round finish; BFS to fixpoint per configuration; GET /health compared with the reference predicate in every state; Close (twice) at every transition target and, for every check transition, with the first ping of that check still outstanding: the round in flight may finish, no further round may start, the loop goroutine must end; the real daemon (loopback listeners, virtual grace period) shut down with each of {no fault, a listener whose Close fails, a request still inside a token operation when the grace period ends}: after Daemon.Close the loop goroutine is gone and the tokens are closed; the worker process's own check loop (cmdline/workercmd healthCheck on the real code, getppid / token ping / ticker and check deadline answered by the harness): every history over {ping ok | error | returns the context's error at the deadline | does not return at all (a token that ignores its context), parent replaced by pid 1, parent replaced by a subreaper} up to depth 4 (thorough 6), for a server that is an ordinary process and one that is pid 1: the loop stops the worker exactly when the parent it started under is gone or a check failed, and goes on otherwise. distinct_nontrivial = distinct canonical states other than the initial one")
+	run.Rule("state = canonical (healthStatus, age of last completed check saturated just above 3 intervals, trailing failure run) reached by a history of events {check(vector over ok/error/timeout per token), advance(1 | 3 | 3+1ns intervals; thorough adds 1ns and 3 intervals-1ns in one depth-bounded configuration); two configurations add key lookups through the real handler between checks (the first fills the key cache, later ones are answered from it); four configurations leave tokencheckinterval and / or tokenchecktimeout unset or set the timeout above the interval (every check's deadline must be the configured timeout, 60 s when unset; a round the loop is woken for must ask every served token before the loop waits again); one configuration with tokens.<name>.ratelimit set adds drain-token-budgets (a key lookup per token through the real handler, once per history)} replayed on a fresh real server.New; besides a check that completes, a check may begin and have its first ping NOT return (a token that ignores its context) while advance events go on, until a resume event lets it return and the round finish; BFS to fixpoint per configuration; GET /health compared with the reference predicate in every state; Close (twice) at every transition target and, for every check transition, with the first ping of that check still outstanding: the round in flight may finish, no further round may start, the loop goroutine must end; the real daemon (loopback listeners, virtual grace period) shut down with each of {no fault, a listener whose Close fails, a request still inside a token operation when the grace period ends}: after Daemon.Close the loop goroutine is gone and the tokens are closed; the worker process's own check loop (cmdline/workercmd healthCheck on the real code, getppid / token ping / ticker and check deadline answered by the harness): every history over {ping ok | error | returns the context's error at the deadline | does not return at all (a token that ignores its context), parent replaced by pid 1, parent replaced by a subreaper} up to depth 4 (thorough 6), for a server that is an ordinary process and one that is pid 1: the loop stops the worker exactly when the parent it started under is gone or a check failed, and goes on otherwise. distinct_nontrivial = distinct canonical states other than the initial one")
 	run.Assume("token Ping order inside one check is map order; the reference treats the per-check outcome vector as a multiset")
 	run.Assume("goroutine exit after Close is observed by polling runtime.Stack for up to 10 s (correct code exits in microseconds)")
 	run.Assume("the loop is driven only through what it waits on (virtual timers / tickers, token pings); a loop that starts more than 3 rounds of pings per wake-up is held at the next ping, judged and closed there, and not expanded further")
